@@ -1106,3 +1106,58 @@ pub fn write_parts<W: io::Write>(
     writer.write_all(b"\n")?;
     Ok(())
 }
+
+#[cfg(feature = "verif_hooks")]
+impl<R, P> Reader<R, P>
+where
+    R: io::Read,
+    P: BufPolicy,
+{
+    /// Read-only copy of the reader bookkeeping (monitoring hook)
+    pub fn verif_snapshot(&self) -> crate::verif_hooks::Snapshot {
+        crate::verif_hooks::Snapshot {
+            state: match self.state {
+                State::New => "New",
+                State::Parsing => "Parsing",
+                State::Positioned => "Positioned",
+                State::Finished => "Finished",
+            },
+            buf_len: self.get_buf().len(),
+            capacity: self.buf_reader.capacity(),
+            rec_start: self.buf_pos.pos.0,
+            offsets: vec![
+                self.buf_pos.seq,
+                self.buf_pos.sep,
+                self.buf_pos.qual,
+                self.buf_pos.pos.1,
+            ],
+            search_pos: None,
+            incomplete: self.incomplete_pos.map(|p| match p {
+                RecordPos::Head => "Head",
+                RecordPos::Seq => "Seq",
+                RecordPos::Sep => "Sep",
+                RecordPos::Qual => "Qual",
+            }),
+            pos_line: self.position.line,
+            pos_byte: self.position.byte,
+        }
+    }
+
+    /// The current buffer contents (monitoring hook)
+    pub fn verif_buffer(&self) -> &[u8] {
+        self.get_buf()
+    }
+
+    /// The current buffer capacity (monitoring hook)
+    pub fn verif_capacity(&self) -> usize {
+        self.buf_reader.capacity()
+    }
+}
+
+#[cfg(feature = "verif_hooks")]
+impl RecordSet {
+    /// The buffer of the record set (monitoring hook)
+    pub fn verif_buffer(&self) -> &[u8] {
+        &self.buffer
+    }
+}
